@@ -36,18 +36,30 @@ func (e *Exec) step(fr *Frame, st *State, in ssa.Instruction, b *ssa.BasicBlock,
 	case *ssa.BinOp:
 		fr.vals[x] = e.binop(fr, st, x)
 	case *ssa.Store:
+		e.exactUse(fr, st, x.Val, "store")
 		e.store(fr, st, e.val(fr, x.Addr), e.val(fr, x.Val), x.Val.Type())
 	case *ssa.MapUpdate:
 		e.mapUpdate(fr, st, x)
 	case *ssa.Convert:
+		e.pendingExact = nil
 		fr.vals[x] = e.convert(fr, st, x.X, x.Type())
+		if e.pendingExact != nil {
+			e.setExact(fr, x, e.pendingExact)
+			e.pendingExact = nil
+		}
 	case *ssa.ChangeType:
 		fr.vals[x] = e.val(fr, x.X)
+		if e.Opt.Exact {
+			if ex := e.exOf(fr, x.X, nil); ex != nil {
+				e.setExact(fr, x, ex)
+			}
+		}
 	case *ssa.MultiConvert:
 		fr.vals[x] = e.convert(fr, st, x.X, x.Type())
 	case *ssa.ChangeInterface:
 		fr.vals[x] = e.val(fr, x.X)
 	case *ssa.MakeInterface:
+		e.exactUse(fr, st, x.X, "box")
 		fr.vals[x] = e.def(SObj, e.box(e.val(fr, x.X), x.X.Type()))
 	case *ssa.TypeAssert:
 		v, ok := e.typeAssert(fr, st, x)
@@ -126,6 +138,7 @@ func (e *Exec) step(fr *Frame, st *State, in ssa.Instruction, b *ssa.BasicBlock,
 	case *ssa.Return:
 		var res []Value
 		for _, r := range x.Results {
+			e.exactUse(fr, st, r, "return")
 			res = append(res, e.val(fr, r))
 		}
 		if fr.parent == nil {
@@ -295,7 +308,7 @@ func (e *Exec) unop(fr *Frame, st *State, x *ssa.UnOp) Value {
 		v := e.term(fr, st, x.X)
 		if ii, ok := intInfoOf(x.Type()); ok {
 			neg := App(SInt, "-", v)
-			e.exactCheck(st, x, x.Type(), neg, "neg")
+			e.exactArith(fr, st, x, "neg", x.X, nil, v, nil)
 			return e.def(SInt, ii.wrap(neg, true))
 		}
 		return e.fresh(SInt, "fneg")
@@ -441,15 +454,15 @@ func (e *Exec) binop(fr *Frame, st *State, x *ssa.BinOp) Value {
 	switch x.Op {
 	case token.ADD:
 		raw := Add(at, bt)
-		e.exactCheck(st, x, x.Type(), raw, "add")
+		e.exactArith(fr, st, x, "add", x.X, x.Y, at, bt)
 		return e.def(SInt, ii.wrap(raw, true))
 	case token.SUB:
 		raw := Sub(at, bt)
-		e.exactCheck(st, x, x.Type(), raw, "sub")
+		e.exactArith(fr, st, x, "sub", x.X, x.Y, at, bt)
 		return e.def(SInt, ii.wrap(raw, true))
 	case token.MUL:
 		raw := App(SInt, "*", at, bt)
-		e.exactCheck(st, x, x.Type(), raw, "mul")
+		e.exactArith(fr, st, x, "mul", x.X, x.Y, at, bt)
 		_, cx := x.X.(*ssa.Const)
 		_, cy := x.Y.(*ssa.Const)
 		if cx || cy {
@@ -460,18 +473,19 @@ func (e *Exec) binop(fr *Frame, st *State, x *ssa.BinOp) Value {
 		e.safety(st, "safe:div", render(x, 0), Not(Eq(bt, IntLit(0))), e.posOf(x), at, bt)
 		e.assume(st.pc, Not(Eq(bt, IntLit(0))))
 		raw := App(SInt, "tdiv", at, bt)
-		e.exactCheck(st, x, x.Type(), raw, "quo")
+		e.exactArith(fr, st, x, "quo", x.X, x.Y, at, bt)
 		return e.def(SInt, ii.wrap(raw, true))
 	case token.REM:
 		e.safety(st, "safe:div", render(x, 0), Not(Eq(bt, IntLit(0))), e.posOf(x), at, bt)
 		e.assume(st.pc, Not(Eq(bt, IntLit(0))))
+		e.exactArith(fr, st, x, "rem", x.X, x.Y, at, bt)
 		return e.def(SInt, App(SInt, "trem", at, bt))
 	case token.SHL:
 		if c, ok := x.Y.(*ssa.Const); ok && c.Value != nil {
 			n := c.Int64()
 			if n >= 0 && n < 64 {
 				raw := App(SInt, "*", at, BigLit(pow2(int(n))))
-				e.exactCheck(st, x, x.Type(), raw, "shl")
+				e.exactShl(fr, x, at, n)
 				return e.def(SInt, ii.wrap(raw, false))
 			}
 		}
@@ -521,17 +535,95 @@ func (e *Exec) floatCmp(f string, a, b *Term) *Term {
 	return App(SBool, f, a, b)
 }
 
-// exactCheck: family I — the machine result equals the mathematical one.
+// exactCheck (family I): remember the mathematical value of an integer
+// expression next to its machine value; the obligation "machine == exact" is
+// generated where the value is used as data (exactUse), so that code which
+// tests for overflow before using the result verifies.
 func (e *Exec) exactCheck(st *State, in ssa.Instruction, t types.Type, raw *Term, op string) {
+}
+
+func (e *Exec) exOf(fr *Frame, v ssa.Value, machine *Term) *Term {
+	for f := fr; f != nil; f = f.parent {
+		if t, ok := f.exact[v]; ok {
+			return t
+		}
+	}
+	return machine
+}
+
+func (e *Exec) setExact(fr *Frame, v ssa.Value, t *Term) {
+	if fr.exact == nil {
+		fr.exact = map[ssa.Value]*Term{}
+	}
+	fr.exact[v] = e.def(SInt, t)
+}
+
+// exactArith records the exact value of an integer arithmetic result.
+func (e *Exec) exactArith(fr *Frame, st *State, x ssa.Value, op string, a, b ssa.Value, at, bt *Term) {
 	if !e.Opt.Exact {
 		return
 	}
-	if !e.exactType(t) {
+	ii, ok := intInfoOf(x.Type())
+	if !ok || ii.bits != 64 {
 		return
 	}
-	ii, _ := intInfoOf(t)
-	v := in.(ssa.Value)
-	e.oblige(st, "exact:"+op, render(v, 0), ii.inRange(raw), e.posOf(in), raw)
+	if !e.exactType(x.Type()) {
+		// only chains that start at a Lisp fixnum are tracked
+		has := false
+		for _, o := range []ssa.Value{a, b} {
+			if o == nil {
+				continue
+			}
+			if e.exOf(fr, o, nil) != nil || e.exactType(o.Type()) {
+				has = true
+			}
+		}
+		if !has {
+			return
+		}
+	}
+	ea := e.exOf(fr, a, at)
+	var r *Term
+	switch op {
+	case "neg":
+		r = App(SInt, "-", ea)
+	case "add":
+		r = Add(ea, e.exOf(fr, b, bt))
+	case "sub":
+		r = Sub(ea, e.exOf(fr, b, bt))
+	case "mul":
+		r = App(SInt, "*", ea, e.exOf(fr, b, bt))
+	case "quo":
+		r = App(SInt, "tdiv", ea, e.exOf(fr, b, bt))
+	case "rem":
+		r = App(SInt, "trem", ea, e.exOf(fr, b, bt))
+	default:
+		return
+	}
+	e.setExact(fr, x, r)
+}
+
+// exactUse: v is used as data (boxed into a Lisp object, returned, stored,
+// passed on): its machine value must be the exact one.
+func (e *Exec) exactUse(fr *Frame, st *State, v ssa.Value, what string) {
+	if !e.Opt.Exact {
+		return
+	}
+	var ex *Term
+	for f := fr; f != nil; f = f.parent {
+		if t, ok := f.exact[v]; ok {
+			ex = t
+			break
+		}
+	}
+	if ex == nil {
+		return
+	}
+	m, ok := e.val(fr, v).(*Term)
+	if !ok || m.S == ex.S {
+		return
+	}
+	e.oblige(st, "exact:"+what, render(v, 0), Eq(m, ex), e.posOf(e.curIn), m, ex)
 }
 
 func (e *Exec) exactType(t types.Type) bool {
@@ -556,6 +648,11 @@ func (e *Exec) convert(fr *Frame, st *State, xv ssa.Value, to types.Type) Value 
 	switch {
 	case fok && tok:
 		t := v.(*Term)
+		if e.Opt.Exact && fi.bits == 64 && ti.bits == 64 && fi.signed == ti.signed {
+			if ex := e.exOf(fr, xv, nil); ex != nil {
+				e.pendingExact = ex
+			}
+		}
 		if fi == ti {
 			return t
 		}
@@ -845,3 +942,13 @@ func (e *Exec) flushHashFacts() {
 }
 
 func (e *Exec) atPanic(fr *Frame, st *State, x *ssa.Panic) {}
+
+func (e *Exec) exactShl(fr *Frame, x *ssa.BinOp, at *Term, n int64) {
+	if !e.Opt.Exact {
+		return
+	}
+	if ii, ok := intInfoOf(x.Type()); !ok || ii.bits != 64 {
+		return
+	}
+	e.setExact(fr, x, App(SInt, "*", e.exOf(fr, x.X, at), BigLit(pow2(int(n)))))
+}
